@@ -477,7 +477,7 @@ func c08check(c *Ctx, cas wcase, res wresult) {
 }
 
 func c08framing(c *Ctx) {
-	c.Rule = "C01's scripts (length <=2; thorough <=3 at corners) x content x level x wc {0,1,2,4}, closed and unclosed (Flush+Wait), plus header settings Name {'',n} x Comment {'',c} x Extra {nil, XY subfield, subfield whose data contains BC\\x02\\x00} x ModTime {zero, 1e8, 148290 (bytes spell BC\\x02\\x00)} x OS {255,3} on 5 scripts, plus Name lengths around the 64 KiB member limit with a full incompressible block. Oracle: independent RFC1952/BGZF parser (FEXTRA, BC subfield = member length-1, member <= 65536, payload <= 65280, CRC32, ISIZE, contiguous), compress/gzip multistream decode == written data, EOF marker present iff Close returned nil and HasEOF agrees, bytes identical for all wc. Non-trivial: distinct outputs with at least one data member."
+	c.Rule = "C01's scripts (length <=2; thorough <=3 at corners) x content x level x wc {0,1,2,4}, closed and unclosed (Flush+Wait), plus header settings Name {'',n} x Comment {'',c} x Extra {nil, XY subfield, subfield whose data contains BC\\x02\\x00} x ModTime {zero, 1e8, 148290 (bytes spell BC\\x02\\x00)} x OS {255,3} on 5 scripts, ModTime x level {-1,1,9} x OS {0,3,255} spelling BC\\x02\\x00 across MTIME/XFL/OS at every alignment, plus Name lengths around the 64 KiB member limit with a full incompressible block. Oracle: independent RFC1952/BGZF parser (FEXTRA, BC subfield = member length-1, member <= 65536, payload <= 65280, CRC32, ISIZE, contiguous), compress/gzip multistream decode == written data, EOF marker present iff Close returned nil and HasEOF agrees, bytes identical for all wc. Non-trivial: distinct outputs with at least one data member."
 	if c.Replay != nil {
 		var cas wcase
 		if err := json.Unmarshal(c.Replay, &cas); err != nil {
@@ -539,6 +539,22 @@ func c08framing(c *Ctx) {
 							groups = append(groups, g)
 						}
 					}
+				}
+			}
+		}
+	}
+	// ModTime / compression-level flag / OS values that spell (a prefix of) the BGZF subfield
+	// header "BC\x02\x00" across the fixed gzip header at every alignment: 'B' at header offset
+	// 4 (all inside MTIME), 5 (XFL=0 completes it), 6 (XFL=2 from level 9 and OS=0 complete it), 7
+	for _, s := range hs[:2] {
+		for _, mt := range []int64{0x00024342, 0x02434200, 0x02434211, 0x43420000, 0x43421100, 0x42000000} {
+			for _, lv := range []int{-1, 1, 9} {
+				for _, os := range []int{0, 3, 255} {
+					var g group
+					for _, wc := range []int{1, 2} {
+						g.cases = append(g.cases, wcase{Script: sopsString(s), Ops: s, Level: lv, WC: wc, Close: true, Hdr: &hdrSetting{ModTime: mt, OS: os}})
+					}
+					groups = append(groups, g)
 				}
 			}
 		}
